@@ -110,6 +110,11 @@ Theorem C08_parse_render : forall oldName newName hs, Forall hunk_ok hs ->
 Proof. exact parse_render_render. Qed.
 Print Assumptions C08_parse_render.
 
+Theorem C08_render_inj : forall oldName newName hs hs', Forall hunk_ok hs -> Forall hunk_ok hs' ->
+  render oldName newName hs = render oldName newName hs' -> hs = hs'.
+Proof. exact render_inj. Qed.
+Print Assumptions C08_render_inj.
+
 Theorem C08_diff_bytes_parse : forall oldName old newName new out,
   diff oldName old newName new = Ok out -> old <> new ->
   exists hs, diff_hunks (lines old) (lines new) = Ok hs /\ out = render oldName newName hs /\
